@@ -103,6 +103,14 @@ MUTATIONS = [
     ("c13-postinit-before-attrs", "core/objects.py", "            for key, value in values.items():\n                setattr(stub, key, value)\n\n            # Call __post_init__\n            stub.__post_init__()", "            stub.__post_init__()\n            for key, value in values.items():\n                setattr(stub, key, value)", ["C13"]),
     ("c13-pretask-gathered-by-key", "core/objects.py", "                self.pre_tasks[id(pre_task)] = self.stub(pre_task)", "                self.pre_tasks[len(self.pre_tasks)] = self.stub(pre_task)", ["C13"]),
     ("c13-no-store-memo", "core/objects.py", "            o = self.objects.retrieve(id(config))\n\n            if o is None:", "            o = None\n\n            if o is None:", ["C13"]),
+    # C16
+    ("c16-backup-always-removed", "scheduler/base.py", "            if exc_type is None and self.jobsbakpath.is_dir():", "            if self.jobsbakpath.is_dir():", ["C16"]),
+    ("c16-old-links-not-moved", "scheduler/base.py", "                    else:\n                        # Rename otherwise\n                        target.parent.mkdir(parents=True, exist_ok=True)\n                        p.rename(target)", "                    else:\n                        p.unlink()", ["C16"]),
+    ("c16-job-not-linked", "scheduler/base.py", "        if path.is_symlink():\n            path.unlink()\n        path.symlink_to(job.path)", "        if path.is_symlink():\n            path.unlink()", ["C16"]),
+    ("c16-no-xp-lock", "scheduler/base.py", "            self.xplock = self.workspace.connector.lock(self.xplockpath, 0).__enter__()", "            self.xplock = None", ["C16"]),
+    ("c16-links-not-cleared", "scheduler/base.py", "            for p in self.jobspath.glob(\"*/*\"):\n                if p.is_symlink():", "            for p in self.jobspath.glob(\"*/*\"):\n                if False:", ["C16"]),
+    ("c16-duplicate-kept-in-jobs", "scheduler/base.py", "                    if target.is_symlink():\n                        # Remove if duplicate\n                        p.unlink()", "                    if target.is_symlink():\n                        pass", ["C16"]),
+    ("c16-link-to-xp-dir", "scheduler/base.py", "        path.symlink_to(job.path)", "        path.symlink_to(job.path.parent)", ["C16"]),
     # C19
     ("c19-perform-ignored", "cli/jobs.py", "            if perform:\n                cprint(\"Cleaning...\", \"red\")\n                rmtree(p)", "            if True:\n                cprint(\"Cleaning...\", \"red\")\n                rmtree(p)", ["C19"]),
     ("c19-clean-not-finished", "cli/jobs.py", "        if clean and info.state and info.state.finished():", "        if clean and info.state:", ["C19"]),
